@@ -281,7 +281,7 @@ pub fn run(rep: &mut Report) {
         st.dedup();
         let days_s: Vec<i64> = {
             let (d0, d1) = (days1900(1, 1, 1), days1900(9999, 12, 31));
-            let mut v: Vec<i64> = (d0..=d1).step_by(if q { 4999 } else { 499 }).collect();
+            let mut v: Vec<i64> = (d0..=d1).step_by(if q { 19_999 } else { 499 }).collect();
             v.extend([-1, 0, 1, -15_020, -36_525, -36_524, 36_524, 36_525, days1900(1858, 11, 16), days1900(1858, 11, 17), days1900(1899, 12, 31), days1900(1, 1, 1), days1900(9999, 12, 31), days1900(2016, 12, 31), days1900(1980, 1, 5), days1900(2000, 1, 1)]);
             v.sort();
             v.dedup();
